@@ -111,7 +111,7 @@ let handle ws = match ws with
   | ["sigE"; r; s] -> let r = bytes_of_hex r and s = bytes_of_hex s in
     pr_enc (sm2_sig_to_der r s) (sm2_sig_size r s)
   | ["sigD"; h] -> let i = bytes_of_hex h in
-    pr_dec i (sm2_sig_from_der i) (fun ((r, s), rest) -> (hx r ^ " " ^ hx s, rest))
+    pr_dec i (sm2_sig_from_der i) (fun ((r, s), rest) -> (hx r ^ " " ^ hx s ^ " WHOLE", rest))
   | ["hexD"; t] -> let i = bytes_of_hex t in
     with_modes (fun m -> match hex_to_bytes m i with
      | Ok o -> "OK " ^ hx o | Absent -> "ABSENT" | Err -> "ERR" | Fault -> "FAULT")
@@ -152,7 +152,7 @@ let handle ws = match ws with
   (* ---- composite objects (coq/Codec/Pkcs.v, Pem.v).  Hints: H=<d>:<xy>,... ([d]G) and P=<65 octets>:<0|1>,... *)
   | op :: args when List.mem op ["curveE";"curveD";"pkalgE";"pkalgD";"sm2algE";"sm2algD";"encalgE";"encalgD";"p2eE";"p2eD";"prfE";"prfD";
                                  "kdfpE";"kdfpD";"kdfaE";"kdfaD";"p2pE";"p2pD";"p2aE";"p2aD";"p8eE";"p8eD";"ctE";"ctD";"pubE";"pubD";"pubiE";"pubiD";
-                                 "privE";"privD";"p8E";"p8D";"p8seal";"p8sealraw";"p8open";"pemW";"pemR"] ->
+                                 "privE";"privD";"p8E";"p8D";"p8seal";"p8sealraw";"p8open";"pemW";"pemR";"pubiP";"p8P"] ->
     let zi x = z_of_int (int_of_string x) and zs z = soi (int_of_z z) in
     let hints pre = List.concat (List.map (fun a ->
         if String.length a > 2 && String.sub a 0 2 = pre then
@@ -201,16 +201,18 @@ let handle ws = match ws with
      | "p8eD", [h] -> let i = bytes_of_hex h in pr_dec i (p8e_from_der i) (fun ((p, en), r) -> (show_p p true ^ " " ^ hx en, r))
      | "ctE", [x; y; hh; c] -> enc (sm2_ct_to_der (bytes_of_hex x) (bytes_of_hex y) (bytes_of_hex hh) (bytes_of_hex c))
      | "ctD", [h] -> let i = bytes_of_hex h in
-       pr_dec i (sm2_ct_from_der i) (fun ((((x, y), hh), c), r) -> (hx x ^ " " ^ hx y ^ " " ^ hx hh ^ " " ^ hx c, r))
+       pr_dec i (sm2_ct_from_der i) (fun ((((x, y), hh), c), r) -> (hx x ^ " " ^ hx y ^ " " ^ hx hh ^ " " ^ hx c ^ " WHOLE", r))
      | "pubE", [xy] -> enc (sm2_pub_to_der (bytes_of_hex xy))
      | "pubiE", [xy] -> enc (sm2_pubinfo_to_der (bytes_of_hex xy))
-     | "pubD", [h] -> let i = bytes_of_hex h in pr_dec i (sm2_pub_from_der pt_ok i) (fun (xy, r) -> (hx xy, r))
-     | "pubiD", [h] -> let i = bytes_of_hex h in pr_dec i (sm2_pubinfo_from_der pt_ok i) (fun (xy, r) -> (hx xy, r))
+     | "pubD", [h] -> let i = bytes_of_hex h in pr_dec i (sm2_pubkey_from_der pt_ok i) (fun (k, r) -> (hx k.k_priv ^ " " ^ hx k.k_pub ^ " WHOLE", r))
+     | "pubiD", [h] -> let i = bytes_of_hex h in pr_dec i (sm2_pubkeyinfo_from_der pt_ok i) (fun (k, r) -> (hx k.k_priv ^ " " ^ hx k.k_pub ^ " WHOLE", r))
+     | "pubiP", [t] -> (match sm2_pubkeyinfo_from_pem pt_ok (bytes_of_hex t) with Ok k -> "OK " ^ hx k.k_priv ^ " " ^ hx k.k_pub ^ " WHOLE" | Fault -> "FAULT" | _ -> "ERR")
+     | "p8P", [t] -> (match sm2_privkeyinfo_from_pem pub_of pt_ok (bytes_of_hex t) with Ok k -> "OK " ^ hx k.k_priv ^ " " ^ hx k.k_pub ^ " WHOLE" | Fault -> "FAULT" | _ -> "ERR")
      | "privE", [d] -> enc (sm2_priv_to_der pub_of (bytes_of_hex d))
      | "p8E", [d] -> enc (sm2_p8_to_der pub_of (bytes_of_hex d))
-     | "privD", [h] -> let i = bytes_of_hex h in pr_dec i (sm2_priv_from_der pub_of pt_ok i) (fun ((d, xy), r) -> (hx d ^ " " ^ hx xy, r))
+     | "privD", [h] -> let i = bytes_of_hex h in pr_dec i (sm2_priv_from_der pub_of pt_ok i) (fun ((d, xy), r) -> (hx d ^ " " ^ hx xy ^ " WHOLE", r))
      | "p8D", [h] -> let i = bytes_of_hex h in
-       pr_dec i (sm2_p8_from_der pub_of pt_ok i) (fun (((d, xy), at), r) -> (hx d ^ " " ^ hx xy ^ " " ^ attrs_s at, r))
+       pr_dec i (sm2_p8_from_der pub_of pt_ok i) (fun (((d, xy), at), r) -> (hx d ^ " " ^ hx xy ^ " " ^ attrs_s at ^ " WHOLE", r))
      | "p8seal", [d; pass; salt; iv; iter; kl; prf] ->
        (match sm2_p8_to_der pub_of (bytes_of_hex d) with
         | Ok info ->
@@ -226,7 +228,7 @@ let handle ws = match ws with
        enc (p8e_to_der p en)
      | "p8open", [pass; h] -> let i = bytes_of_hex h in
        (match sm2_p8_open_c pub_of pt_ok kdf cbcdec_sm4 (bytes_of_hex pass) i with
-        | Ok (((d, xy), at), r) -> "OK " ^ hx d ^ " " ^ hx xy ^ " " ^ attrs_s at ^ " " ^ soi (llen i - llen r)
+        | Ok (((d, xy), at), r) -> "OK " ^ hx d ^ " " ^ hx xy ^ " " ^ attrs_s at ^ " WHOLE " ^ soi (llen i - llen r)
         | Fault -> "FAULT" | _ -> "ERR")
      | "pemW", [name; d] -> (match pem_write (bytes_of_hex name) (bytes_of_hex d) with Some t -> "OK " ^ hx t | None -> "ERR")
      | "pemR", [name; mx; t] -> let i = bytes_of_hex t in
